@@ -20,6 +20,12 @@ CLAIMED = {
  "C08": dict(level="fault_enumeration", tech="property-based testing of seal (metamorphic sealed-vs-unsealed oracle) + fault enumeration of post-seal operations and wire mutations",
    text="Every generated token is sealed; the sealed token must verify on all entry points with unchanged blocks, accessors and revocation ids, authorize exactly like the unsealed twin under generated authorizers, refuse all 12 extending operations on three paths (in memory, reloaded, unverified-then-verified), and no variant of the C01 catalogue (including attacker grafts) may verify with added, removed or altered blocks.",
    note="authorizers are total typed programs; re-encoding of the seal signature itself is not counted (no block changes)", ref="4 C08"),
+ "C10": dict(level="exploration", tech="property-based testing of call histories over program families with model-known cost, limits drawn from boundary sets, invariants checked after every call under a virtual clock (hook)",
+   text="Seven program families (chain, exponential join, expensive iteration / non-productive iteration / check / query, ticking chain) whose iteration, fact and tick cost is computed by the reference fixpoint are run under limit triples around that cost and call histories of length 1-4 (run/authorize/query/query_all/query_exactly_one), in an authorizer or in a token. After every call: no panic; success implies iterations, facts and virtual time within budget; a program needing more than a budget never succeeds; limit errors are prompt (8 ticks, 2x facts + 64); budgets are cumulative.",
+   note="time is a per-thread virtual clock advanced by an extern function (hook H1, guarded); promptness allowances are stated constants; real-time behaviour under load is not measured", ref="4 C10"),
+ "C11": dict(level="exploration", tech="property-based testing over hash orders: N fresh builds (new RandomState per HashMap), clones, permuted insertions, fresh threads, reused objects and tight iteration budgets; reference model only classifies the known root cause",
+   text="Each generated (token, authorizer, probe queries) input with fallible expressions is evaluated on 48 (quick) / 512 (thorough) fresh builds plus clones, second calls and thread-spawned builds; the set of normalised outcomes and of query result sets must have one element; a second campaign uses an iteration budget equal to the model cost (+0/+1) so that order-dependent iteration counts flip the outcome.",
+   note="hash seeds come from the OS: a reported difference is always real, a rare order dependence can be missed; the first-result-wins root cause is an open known finding, classified with RefAuthz", ref="4 C11"),
  "C15": dict(level="exploration", tech="stateful property-based testing of identifier stability + twin minting + fault enumeration of signature re-encodings",
    text="Identifiers are compared after every build/append/third-party/seal/serialise/verify step of generated histories and against the wire signatures read by an independent decoder; two twins minted through the OS-RNG entry points must share no identifier; every accepted signature-level re-encoding must report the original identifiers.",
    note="uniqueness is probabilistic (OS RNG); ECDSA high-S malleability is an open known finding", ref="4 C15"),
@@ -52,7 +58,7 @@ m = {
    "guard": "biscuit_auth_biscuit_rust_verif",
    "enable": "RUSTFLAGS --cfg biscuit_auth_biscuit_rust_verif, set in /verif/harness/.cargo/config.toml (the harness depends on /repo's crates by path)",
    "baseline_off_cmd": "cd /repo && cargo test --workspace --no-fail-fast --offline",
-   "source_commits": [],
+   "source_commits": ["a55622d"],
    "add_only": True,
  },
  "engines": [
